@@ -23,6 +23,7 @@ var tamperNames = []string{
 	"missing-seal", "missing-pre-digest", "empty-digest",
 	"wrong-epoch-vrf", "slot-relabelled",
 	"two-pre-digests", "foreign-engine-id",
+	"item-inserted-after-sealing",
 }
 
 type pairKey struct {
@@ -412,6 +413,13 @@ func (sc *scenario) author(tamper string, parent *chainBlock, ep *refEpoch, epoc
 		second := d.c
 		second.slot++
 		d.secondPre = &second
+		return d, true
+	case "item-inserted-after-sealing":
+		// anybody can do this to an honestly sealed header: the seal then no longer covers "the header without the seal"
+		if !honest() {
+			return d, false
+		}
+		d.afterSeal = 1 + k.Choose(3, "inserted-item-kind")
 		return d, true
 	case "foreign-engine-id":
 		if !honest() {
